@@ -8,9 +8,11 @@ namespace ResEnvProofs
 open Attr Extracted.Attributes Attributes Resource ResProofs
 
 /-- what one item `k=v` of DEEP_RESOURCE_ATTRIBUTES means: key and value around the FIRST "=", both stripped, the
-    value url-unquoted; an item without "=" means nothing -/
+    value url-unquoted; an item without "=" means nothing.  NOTE: written with the SAME hand-written text operations
+    (`splitKV`, `asciiStrip`, `unquoteS`) as the translated loop calls — `detect_eq` is therefore a loop-to-fold
+    refinement (which items, in which order, which one wins), not an independent account of split/strip/unquote. -/
 def itemPair (item : String) : Option (String × String) :=
-  (splitKV item).map (fun kv => (Py.strip kv.1, unquoteS (Py.strip kv.2)))
+  (splitKV item).map (fun kv => (asciiStrip kv.1, unquoteS (asciiStrip kv.2)))
 
 /-- the pairs a DEEP_RESOURCE_ATTRIBUTES text spells, in order -/
 def envPairs (s : String) : List (String × String) := (splitItems s).filterMap itemPair
@@ -37,7 +39,7 @@ theorem detectLoop_eq (ra sn : Option String) (items : List String) :
       exact ih acc
     | some kv =>
       obtain ⟨k, v⟩ := kv
-      have : itemPair it = some (Py.strip k, unquoteS (Py.strip v)) := by simp [itemPair, h]
+      have : itemPair it = some (asciiStrip k, unquoteS (asciiStrip v)) := by simp [itemPair, h]
       simp only [List.filterMap_cons, this]
       rw [ih]
       rfl
@@ -92,9 +94,11 @@ def renderC : List (List Char × List Char) → List Char
   | [p] => p.1 ++ '=' :: p.2
   | p :: q :: rest => p.1 ++ '=' :: p.2 ++ ',' :: renderC (q :: rest)
 
-/-- a pair that can be written as `k=v` without quoting: no "," or "=" in the key, no "," or "%" in the value,
-    no white space at either end of either -/
+/-- a pair that can be written as `k=v` without quoting: ASCII only (the modelled domain), no "," or "=" in the key,
+    no "," or "%" in the value, no (ASCII) white space at either end of either -/
 structure WFPair (p : List Char × List Char) : Prop where
+  kAscii : ∀ c ∈ p.1, c.toNat < 128
+  vAscii : ∀ c ∈ p.2, c.toNat < 128
   kComma : ',' ∉ p.1
   kEq : '=' ∉ p.1
   vComma : ',' ∉ p.2
@@ -155,8 +159,8 @@ theorem unquote_nopct : ∀ l : List Char, '%' ∉ l → unquote l = l := by
 
 theorem itemPair_wf {p : List Char × List Char} (h : WFPair p) :
     itemPair (String.ofList (p.1 ++ '=' :: p.2)) = some (String.ofList p.1, String.ofList p.2) := by
-  have hk : Py.strip (String.ofList p.1) = String.ofList p.1 := h.kStrip
-  have hv : Py.strip (String.ofList p.2) = String.ofList p.2 := h.vStrip
+  have hk : asciiStrip (String.ofList p.1) = String.ofList p.1 := h.kStrip
+  have hv : asciiStrip (String.ofList p.2) = String.ofList p.2 := h.vStrip
   simp only [itemPair, splitKV, String.toList_ofList, splitFirst_sep '=' p.2 p.1 h.kEq, Option.map_some, hk, hv,
     unquoteS, unquote_nopct p.2 h.vPct]
 
